@@ -52,167 +52,177 @@ def special(shape):
     return np.resize(vals, n).reshape(shape)
 
 
-ARRAYS = []
-for shape in ((1, 1, 1, 1), (2, 3, 2, 3), (14, 8, 14, 8)):
-    ARRAYS.append(("random" + str(shape), rng.normal(size=shape)))
-    ARRAYS.append(("special" + str(shape), special(shape)))
+def _main():
+    ARRAYS = []
+    for shape in ((1, 1, 1, 1), (2, 3, 2, 3), (14, 8, 14, 8)):
+        ARRAYS.append(("random" + str(shape), rng.normal(size=shape)))
+        ARRAYS.append(("special" + str(shape), special(shape)))
 
 
-# ---- contract 1: Operator.save / Operator.load are inverse on the bits ------------------------------------------------------------------------------
-@deal.ensure(lambda op, result: bits(result.operator) == bits(op.operator) and bits(result.error) == bits(op.error), message="load(save(op)) differs from op on the bit level")
-def roundtrip_operator(op):
-    import io
-    stream = io.BytesIO()
-    no_err = op.save(stream)
-    assert no_err == (op.error is None)
-    stream.seek(0)
-    return items.Operator.load(stream)
+    # ---- contract 1: Operator.save / Operator.load are inverse on the bits ------------------------------------------------------------------------------
+    @deal.ensure(lambda op, result: bits(result.operator) == bits(op.operator) and bits(result.error) == bits(op.error), message="load(save(op)) differs from op on the bit level")
+    def roundtrip_operator(op):
+        import io
+        stream = io.BytesIO()
+        no_err = op.save(stream)
+        assert no_err == (op.error is None)
+        stream.seek(0)
+        return items.Operator.load(stream)
 
 
-for nm, arr in ARRAYS:
-    for err in (None, np.abs(arr) if "random" in nm else special(arr.shape)):
-        name = f"C36.bounded.operator_roundtrip[{nm},error={'yes' if err is not None else 'no'}]"
-        try:
-            roundtrip_operator(items.Operator(arr, err))
-            emit(name, True, fn="eko.io.items:Operator.save/load")
-        except Exception as e:
-            emit(name, False, f"{type(e).__name__}: {e}", fn="eko.io.items:Operator.save/load")
-
-base = pathlib.Path(tempfile.mkdtemp(prefix="c36-"))
-try:
-    # ---- contract 2: a header written by Inventory.__setitem__ is read back by Inventory.sync as an equal header, for every number kind ------------------
-    x = 37.5
-    KINDS = [("float", 10.0), ("int", 20), ("np.float64", np.float64(30.0)), ("np.float32", np.float32(40.0)), ("np.int64", np.int64(50)),
-             ("ulp_low", x), ("ulp_high", float(np.nextafter(x, np.inf))), ("np.float64_ulp", np.nextafter(np.float64(77.7), np.inf))]
-
-    @deal.ensure(lambda header, op, dirname, result: result[0] == header and bits(result[1].operator) == bits(op.operator), message="header / operator not read back by a fresh inventory")
-    def store_and_reopen(header, op, dirname):
-        d = base / dirname
-        d.mkdir(exist_ok=True)
-        acc = AccessConfigs(base / "unused.tar", False, True)
-        Inventory(d, acc, type(header), name="inv")[header] = op
-        inv2 = Inventory(d, acc, type(header), name="inv")
-        inv2.sync()
-        found = [h for h in inv2.cache if h == header]
-        assert len(found) == 1, f"{len(found)} headers equal to {header} after sync ({list(inv2.cache)})"
-        return found[0], inv2[found[0]]
-
-    small = items.Operator(rng.normal(size=(1, 2, 1, 2)))
-    for kn, val in KINDS:
-        for hname, mk in (("Target", lambda v: Target(v, 4)), ("Evolution", lambda v: Evolution(v, 100.0, 4, False)), ("Matching", lambda v: Matching(v, 5, True))):
-            name = f"C36.bounded.header_roundtrip[{hname},scale as {kn}]"
+    for nm, arr in ARRAYS:
+        for err in (None, np.abs(arr) if "random" in nm else special(arr.shape)):
+            name = f"C36.bounded.operator_roundtrip[{nm},error={'yes' if err is not None else 'no'}]"
             try:
-                store_and_reopen(mk(val), small, f"h-{hname}-{kn}")
-                emit(name, True, fn="eko.io.inventory:Inventory.__setitem__/sync")
+                roundtrip_operator(items.Operator(arr, err))
+                emit(name, True, fn="eko.io.items:Operator.save/load")
             except Exception as e:
-                emit(name, False, f"{type(e).__name__}: {str(e)[:250]}", fn="eko.io.inventory:Inventory.__setitem__/sync")
-    # scales one ulp apart are different points
-    d = base / "ulp"
-    d.mkdir()
-    acc = AccessConfigs(base / "unused.tar", False, True)
-    inv = Inventory(d, acc, Target, name="ulp")
-    a, b = Target(x, 4), Target(float(np.nextafter(x, np.inf)), 4)
-    opa, opb = items.Operator(np.zeros((1, 1, 1, 1))), items.Operator(np.ones((1, 1, 1, 1)))
+                emit(name, False, f"{type(e).__name__}: {e}", fn="eko.io.items:Operator.save/load")
+
+    base = pathlib.Path(tempfile.mkdtemp(prefix="c36-"))
     try:
-        inv[a], inv[b] = opa, opb
-        inv2 = Inventory(d, acc, Target, name="ulp")
-        inv2.sync()
-        ok = len(inv2.cache) == 2 and inv2[a].operator[0, 0, 0, 0] == 0.0 and inv2[b].operator[0, 0, 0, 0] == 1.0
-        emit("C36.bounded.scales_one_ulp_apart_are_distinct_points", ok, f"{list(inv2.cache)}", fn="eko.io.inventory:encode")
-    except Exception as e:
-        emit("C36.bounded.scales_one_ulp_apart_are_distinct_points", False, f"{type(e).__name__}: {e}", fn="eko.io.inventory:encode")
+        # ---- contract 2: a header written by Inventory.__setitem__ is read back by Inventory.sync as an equal header, for every number kind ------------------
+        x = 37.5
+        KINDS = [("float", 10.0), ("int", 20), ("np.float64", np.float64(30.0)), ("np.float32", np.float32(40.0)), ("np.int64", np.int64(50)),
+                 ("ulp_low", x), ("ulp_high", float(np.nextafter(x, np.inf))), ("np.float64_ulp", np.nextafter(np.float64(77.7), np.inf))]
 
-    # ---- contract 3: whole archives -----------------------------------------------------------------------------------------------------------------
-    from ekobox.cards import example
+        @deal.ensure(lambda header, op, dirname, result: result[0] == header and bits(result[1].operator) == bits(op.operator), message="header / operator not read back by a fresh inventory")
+        def store_and_reopen(header, op, dirname):
+            d = base / dirname
+            d.mkdir(exist_ok=True)
+            acc = AccessConfigs(base / "unused.tar", False, True)
+            Inventory(d, acc, type(header), name="inv")[header] = op
+            inv2 = Inventory(d, acc, type(header), name="inv")
+            inv2.sync()
+            found = [h for h in inv2.cache if h == header]
+            assert len(found) == 1, f"{len(found)} headers equal to {header} after sync ({list(inv2.cache)})"
+            return found[0], inv2[found[0]]
 
-    def cards(variant):
-        th, op = example.theory(), example.operator()
-        if variant == 1:
-            th.order = (3, 0)
-            th.xif = 2.0
-        if variant == 2:
-            op.mugrid = [(float(np.float64(10.0)), 5), (100.0, 5)]
-        if variant == 3:
-            th.order = (2, 1)
-            th.couplings.em_running = True
-        return th, op
-
-    @deal.ensure(lambda path, th, op, content, result: result == [], message="archive content after close + read differs")
-    def write_and_read(path, th, op, content):
-        problems = []
-        with struct.EKO.create(path) as builder:
-            eko = builder.load_cards(th, op).build()
-            for ep, o in content.items():
-                eko[ep] = o
-        with struct.EKO.read(path) as back:
-            got = {(float(ep[0]), int(ep[1])) for ep in back}
-            want = {(float(ep[0]), int(ep[1])) for ep in content}
-            if got != want:
-                problems.append(f"evolution points {sorted(got)} != {sorted(want)}")
-            for ep, o in content.items():
-                key = (float(ep[0]), int(ep[1]))
-                if key in got:
-                    r = back[key]
-                    if bits(r.operator) != bits(o.operator) or bits(r.error) != bits(o.error):
-                        problems.append(f"operator at {key} differs bitwise")
-            if not same(back.theory_card.raw, th.raw):
-                problems.append(f"theory card differs: {[k for k in th.raw if not same(back.theory_card.raw.get(k), th.raw[k])]}")
-            if not same(back.operator_card.raw, op.raw):
-                problems.append(f"operator card differs: {[k for k in op.raw if not same(back.operator_card.raw.get(k), op.raw[k])]}")
-            if not same(back.metadata.raw, eko.metadata.raw):
-                problems.append("metadata differ")
-        if problems:
-            raise AssertionError("; ".join(problems))
-        return problems
-
-    scales_pool = [10.0, 20, np.float64(30.0), np.float32(40.0), np.int64(50), x, float(np.nextafter(x, np.inf))]
-    for variant in (0, 1, 2, 3):
-        for npts in (0, 1, 3, 6):
-            for err in (False, True):
-                if npts == 0 and err:
-                    continue
-                th, op = cards(variant)
-                content = {}
-                for i in range(npts):
-                    arr = ARRAYS[(i + variant) % len(ARRAYS)][1]
-                    arr = arr if arr.shape[0] == arr.shape[2] and arr.shape[1] == arr.shape[3] else arr
-                    content[(scales_pool[(i + variant) % len(scales_pool)], 4 + (i % 2))] = items.Operator(arr, np.abs(arr) if err else None)
-                name = f"C36.bounded.archive_roundtrip[cards={variant},points={npts},errors={err}]"
-                path = base / f"a-{variant}-{npts}-{int(err)}.tar"
+        small = items.Operator(rng.normal(size=(1, 2, 1, 2)))
+        for kn, val in KINDS:
+            for hname, mk in (("Target", lambda v: Target(v, 4)), ("Evolution", lambda v: Evolution(v, 100.0, 4, False)), ("Matching", lambda v: Matching(v, 5, True))):
+                name = f"C36.bounded.header_roundtrip[{hname},scale as {kn}]"
                 try:
-                    write_and_read(path, th, op, content)
-                    emit(name, True, fn="eko.io.struct:EKO.dump/read")
+                    store_and_reopen(mk(val), small, f"h-{hname}-{kn}")
+                    emit(name, True, fn="eko.io.inventory:Inventory.__setitem__/sync")
                 except Exception as e:
-                    emit(name, False, f"{type(e).__name__}: {str(e)[:300]}", fn="eko.io.struct:EKO.dump/read")
+                    emit(name, False, f"{type(e).__name__}: {str(e)[:250]}", fn="eko.io.inventory:Inventory.__setitem__/sync")
+        # scales one ulp apart are different points
+        d = base / "ulp"
+        d.mkdir()
+        acc = AccessConfigs(base / "unused.tar", False, True)
+        inv = Inventory(d, acc, Target, name="ulp")
+        a, b = Target(x, 4), Target(float(np.nextafter(x, np.inf)), 4)
+        opa, opb = items.Operator(np.zeros((1, 1, 1, 1))), items.Operator(np.ones((1, 1, 1, 1)))
+        try:
+            inv[a], inv[b] = opa, opb
+            inv2 = Inventory(d, acc, Target, name="ulp")
+            inv2.sync()
+            ok = len(inv2.cache) == 2 and inv2[a].operator[0, 0, 0, 0] == 0.0 and inv2[b].operator[0, 0, 0, 0] == 1.0
+            emit("C36.bounded.scales_one_ulp_apart_are_distinct_points", ok, f"{list(inv2.cache)}", fn="eko.io.inventory:encode")
+        except Exception as e:
+            emit("C36.bounded.scales_one_ulp_apart_are_distinct_points", False, f"{type(e).__name__}: {e}", fn="eko.io.inventory:encode")
 
-    # ---- contract 4: re-editing preserves everything not explicitly changed ------------------------------------------------------------------------------
-    th, op = cards(0)
-    path = base / "edit.tar"
-    content = {(10.0, 4): items.Operator(ARRAYS[0][1]), (20.0, 5): items.Operator(ARRAYS[2][1], np.abs(ARRAYS[2][1])), (30.0, 5): items.Operator(ARRAYS[3][1])}
-    try:
-        with struct.EKO.create(path) as builder:
-            eko = builder.load_cards(th, op).build()
-            for ep, o in content.items():
-                eko[ep] = o
-        with struct.EKO.edit(path) as ed:
-            ed[(20.0, 5)] = items.Operator(ARRAYS[4][1])
-            ed[(40.0, 5)] = items.Operator(ARRAYS[1][1])
-        content[(20.0, 5)] = items.Operator(ARRAYS[4][1])
-        content[(40.0, 5)] = items.Operator(ARRAYS[1][1])
-        bad = []
-        with struct.EKO.read(path) as back:
-            if {tuple(e) for e in back} != set(content):
-                bad.append(f"points {sorted(back)}")
-            for ep, o in content.items():
-                r = back[ep]
-                if bits(r.operator) != bits(o.operator) or bits(r.error) != bits(o.error):
-                    bad.append(f"operator {ep} differs")
-            if not same(back.theory_card.raw, th.raw) or not same(back.operator_card.raw, op.raw):
-                bad.append("cards differ after the edit session")
-        emit("C36.bounded.edit_preserves_the_rest", not bad, "; ".join(bad), fn="eko.io.struct:EKO.edit/close")
-    except Exception as e:
-        emit("C36.bounded.edit_preserves_the_rest", False, f"{type(e).__name__}: {str(e)[:300]}", fn="eko.io.struct:EKO.edit/close")
-finally:
-    shutil.rmtree(base, ignore_errors=True)
+        # ---- contract 3: whole archives -----------------------------------------------------------------------------------------------------------------
+        from ekobox.cards import example
+
+        def cards(variant):
+            th, op = example.theory(), example.operator()
+            if variant == 1:
+                th.order = (3, 0)
+                th.xif = 2.0
+            if variant == 2:
+                op.mugrid = [(float(np.float64(10.0)), 5), (100.0, 5)]
+            if variant == 3:
+                th.order = (2, 1)
+                th.couplings.em_running = True
+            return th, op
+
+        @deal.ensure(lambda path, th, op, content, result: result == [], message="archive content after close + read differs")
+        def write_and_read(path, th, op, content):
+            problems = []
+            with struct.EKO.create(path) as builder:
+                eko = builder.load_cards(th, op).build()
+                for ep, o in content.items():
+                    eko[ep] = o
+            with struct.EKO.read(path) as back:
+                got = {(float(ep[0]), int(ep[1])) for ep in back}
+                want = {(float(ep[0]), int(ep[1])) for ep in content}
+                if got != want:
+                    problems.append(f"evolution points {sorted(got)} != {sorted(want)}")
+                for ep, o in content.items():
+                    key = (float(ep[0]), int(ep[1]))
+                    if key in got:
+                        r = back[key]
+                        if bits(r.operator) != bits(o.operator) or bits(r.error) != bits(o.error):
+                            problems.append(f"operator at {key} differs bitwise")
+                if not same(back.theory_card.raw, th.raw):
+                    problems.append(f"theory card differs: {[k for k in th.raw if not same(back.theory_card.raw.get(k), th.raw[k])]}")
+                if not same(back.operator_card.raw, op.raw):
+                    problems.append(f"operator card differs: {[k for k in op.raw if not same(back.operator_card.raw.get(k), op.raw[k])]}")
+                if not same(back.metadata.raw, eko.metadata.raw):
+                    problems.append("metadata differ")
+            if problems:
+                raise AssertionError("; ".join(problems))
+            return problems
+
+        scales_pool = [10.0, 20, np.float64(30.0), np.float32(40.0), np.int64(50), x, float(np.nextafter(x, np.inf))]
+        for variant in (0, 1, 2, 3):
+            for npts in (0, 1, 3, 6):
+                for err in (False, True):
+                    if npts == 0 and err:
+                        continue
+                    th, op = cards(variant)
+                    content = {}
+                    for i in range(npts):
+                        arr = ARRAYS[(i + variant) % len(ARRAYS)][1]
+                        arr = arr if arr.shape[0] == arr.shape[2] and arr.shape[1] == arr.shape[3] else arr
+                        content[(scales_pool[(i + variant) % len(scales_pool)], 4 + (i % 2))] = items.Operator(arr, np.abs(arr) if err else None)
+                    name = f"C36.bounded.archive_roundtrip[cards={variant},points={npts},errors={err}]"
+                    path = base / f"a-{variant}-{npts}-{int(err)}.tar"
+                    try:
+                        write_and_read(path, th, op, content)
+                        emit(name, True, fn="eko.io.struct:EKO.dump/read")
+                    except Exception as e:
+                        emit(name, False, f"{type(e).__name__}: {str(e)[:300]}", fn="eko.io.struct:EKO.dump/read")
+
+        # ---- contract 4: re-editing preserves everything not explicitly changed ------------------------------------------------------------------------------
+        th, op = cards(0)
+        path = base / "edit.tar"
+        content = {(10.0, 4): items.Operator(ARRAYS[0][1]), (20.0, 5): items.Operator(ARRAYS[2][1], np.abs(ARRAYS[2][1])), (30.0, 5): items.Operator(ARRAYS[3][1])}
+        try:
+            with struct.EKO.create(path) as builder:
+                eko = builder.load_cards(th, op).build()
+                for ep, o in content.items():
+                    eko[ep] = o
+            with struct.EKO.edit(path) as ed:
+                ed[(20.0, 5)] = items.Operator(ARRAYS[4][1])
+                ed[(40.0, 5)] = items.Operator(ARRAYS[1][1])
+            content[(20.0, 5)] = items.Operator(ARRAYS[4][1])
+            content[(40.0, 5)] = items.Operator(ARRAYS[1][1])
+            bad = []
+            with struct.EKO.read(path) as back:
+                if {tuple(e) for e in back} != set(content):
+                    bad.append(f"points {sorted(back)}")
+                for ep, o in content.items():
+                    r = back[ep]
+                    if bits(r.operator) != bits(o.operator) or bits(r.error) != bits(o.error):
+                        bad.append(f"operator {ep} differs")
+                if not same(back.theory_card.raw, th.raw) or not same(back.operator_card.raw, op.raw):
+                    bad.append("cards differ after the edit session")
+            emit("C36.bounded.edit_preserves_the_rest", not bad, "; ".join(bad), fn="eko.io.struct:EKO.edit/close")
+        except Exception as e:
+            emit("C36.bounded.edit_preserves_the_rest", False, f"{type(e).__name__}: {str(e)[:300]}", fn="eko.io.struct:EKO.edit/close")
+    finally:
+        shutil.rmtree(base, ignore_errors=True)
+
+
+try:
+    _main()
+except Exception as e:      # the real code fails while the inputs of the contracts are being built / used outside a contract: a failed obligation, not a crash of the checker
+    import traceback
+    emit("C36.bounded.no_unexpected_exception", False, f"{type(e).__name__}: {str(e)[:200]} @ {traceback.extract_tb(e.__traceback__)[-1].name}", fn="(input construction)")
+else:
+    emit("C36.bounded.no_unexpected_exception", True, fn="(input construction)")
 for o in OUT:
     print("@@OBL@@" + json.dumps(o))
